@@ -94,6 +94,12 @@ def enc_expr(ops):
             out.append(0x2a)
         elif k == "deref":
             out.append(0x06)
+        elif k == "reg0":
+            out.append(0x50)             # DW_OP_reg0: the result is a register location, not an address
+        elif k == "stackvalue":
+            out.append(0x9f)             # DW_OP_stack_value: the result is a value, not an address
+        elif k == "drop":
+            out.append(0x13)
         else:
             out.append(0xff)
     return bytes(out)
